@@ -1,14 +1,14 @@
 CONSTANTS
-  MaxObj = 4
-  MaxSteps = 7
-  CreateClasses = {"P","C","DD","Mid"}
-  QueryClasses = {"DA","Base","P"}
+  MaxObj = 3
+  MaxSteps = 6
+  CreateClasses = {"Mid","Leaf","DD"}
+  QueryClasses = {"DA","Base","Mid"}
   AllowClear = TRUE
-  AllowRelate = TRUE
+  AllowRelate = FALSE
   AllowQueryX = FALSE
   AllowSweep = TRUE
-  CopyModes = {}
-  UnregisteredModes = {}
+  CopyModes = {"copy","from_dao"}
+  UnregisteredModes = {"from_dao"}
   Hist = FALSE
   PopIdOfNone = FALSE
   StaleRelationIndex = FALSE
